@@ -175,5 +175,5 @@ def run(c, facts, tier):
         c.ob("C15.clock", f.key, "the clock value reaches the text only as whole seconds since the epoch", chain == ["duration_since", "unwrap", "as_secs"], "chain on SystemTime::now(): %s" % chain)
         stored = [k for k, s_ in facts.statics.items() if "SystemTime" in s_["ty"] or "Instant" in s_["ty"]]
         c.ob("C15.clock", "crate", "the clock is not cached", not stored, "statics holding a time: %s" % stored if stored else "read afresh in every call of the time-test generator")
-    c.floor("bodies scanned for effects", len(m.bodies), 300)
+    c.floor("bodies scanned for effects", len(m.bodies), 150)
     c.control("C15.ambient", bool(AMBIENT.search("std::env::var")) and bool(AMBIENT.search("std::time::Instant::now")) and bool(HASH_ITER.search("std::collections::HashMap::<K, V, S>::iter")), "fixture callees std::env::var / Instant::now / HashMap::iter are recognised")
